@@ -35,6 +35,9 @@ def run(ctx: Ctx):
     from .common import no_shared_writes
 
     no_shared_writes(ctx, "no-shared-write")
+    from .common import generic_lints
+
+    generic_lints(ctx)
 
 
 class _Sub(ast.NodeTransformer):
